@@ -23,7 +23,15 @@ typing of bytecode (`Spec/Balanced.lean`): a function is *balanced* when an anno
                           DESIGN §7 "Today" is refused by the checker and really misbehaves
                           in the machine (`Model/LegacyBalance.lean`);
 * the generator theorems (`gen_balanced…`) and the VM-level statements (`RunAtRest`,
-  `EvalEmptyNil`, `OneAtATime`) follow further down.
+  `EvalEmptyNil`, `OneAtATime`) follow further down;
+* `calling_contract`     — the VM model refines the stack-effect machine across nested runs;
+* `run_at_rest_of_invariant`, `run_at_rest_reachable`
+                        — on the VM model: from every state that satisfies the run-time invariant
+                          (in particular: every state reachable from the fresh interpreter by
+                          texts of the generator's grammar that returned values), a text of the
+                          grammar that returns a value leaves the interpreter at rest. `RunAtRest`
+                          over EVERY state at rest is not provable without that invariant and
+                          stays a `def`; `OneAtATime` stays a `def` (`one_at_a_time_partial`).
 -/
 import ZygoVerif.Spec.Balanced
 import ZygoVerif.Spec.AtRest
@@ -35,6 +43,7 @@ import ZygoVerif.Proofs.GenBalancedAll
 import ZygoVerif.Proofs.VMRest
 import ZygoVerif.Proofs.VMRefine
 import ZygoVerif.Proofs.RunPrim
+import ZygoVerif.Proofs.RunMain
 import ZygoVerif.Generated.InstrSet
 namespace ZygoVerif.C04
 open ZygoVerif.Bal ZygoVerif.VM ZygoVerif.Core
@@ -575,18 +584,106 @@ theorem wf_initSt : WF initSt := by
     simp only [List.mem_append, List.mem_cons, List.mem_nil_iff, or_false, List.mem_map] at hp
     rcases hp with (rfl | rfl) | ⟨nm, _, rfl⟩ <;> rfl
 
-/-- **run_at_rest_partial**: `RunAtRest` for the empty text (`eval_empty_nil`). What the general
-statement needs on top of the theorems above: (1) the refinement "every `VM.exec` step is a
-`Bal.CStep`": proved per instruction (`exec_refines_partial`) except for the call instructions;
-(2) the calling contract for nested runs: `calling_contract` (all thirteen functions of the mutual
-block, by induction on the fuel); (3) `GenBalanced` for all forms: `gen_balanced`. What is still
-missing is the LAST step: the top-level text itself runs as code APPENDED to `mainfunc` (it starts
-at pc = old length, not 0), so the bottom activation of the outermost `runLoop` needs the
-annotation of `program_verified` shifted by the old length (relative jumps and `break` offsets
-shift; it needs "no `goto` in code compiled with the tail flag off" and "the loop ids of the old
-code are old"), a `Base` without return address, and `WF` + that fact as invariants of `runText`.
-`RunAtRest` quantifies over every state at rest; without the table invariant it is not provable.
-Until then the statement is held, on the real interpreter, by the depth oracle of channel `rest`. -/
+/-! ### run_at_rest: the top-level text as the bottom activation -/
+
+/-- The states an interpreter is in between texts, **as far as the theorem below covers them**:
+the fresh interpreter, and every state reached from it by texts of the model generator's grammar
+(`Bal.okLs`: all core forms, loops, break/continue, functions, closures, tail calls) **that
+returned a value**. NOT covered: states after a text that ended in an error (the calling contract
+is about normal returns; that `Run`'s error path restores the invariant is C01/C05 territory and
+is not proved here) and states after texts outside the grammar. -/
+inductive ServedState : St → Prop
+  | init : ServedState initSt
+  | text {s s' : St} {fuel : Nat} {es : List Expr} {v : String} {tr : List String} {d : String} {alive : Bool} :
+      ServedState s → okLs es = true → runText fuel es s = (Outcome.done "ok" v tr d, s', alive) → ServedState s'
+
+open ZygoVerif.RunInv in
+/-- the fresh interpreter: table invariant, `mainfunc` empty and compiled, at rest -/
+theorem served_initSt : Served initSt :=
+  ⟨wf_initSt, ⟨rfl, AllOK.nil _, idsIn_nil _ _, rfl⟩, ⟨rfl, rfl, rfl, rfl, rfl, by decide⟩⟩
+
+open ZygoVerif.RunInv in
+/-- **run_at_rest for every state that satisfies the invariant** (`RunInv.Served`: `RunInv.WF`,
+`RunInv.MainOK`, `AtRest`): a text of the grammar that returns a value leaves the interpreter
+at rest — data stack empty, only the global scope, no return address, no loop record, pc at the
+end of `mainfunc` — and the invariant holds again. The text runs as code APPENDED to `mainfunc`,
+from the old end: it is the bottom activation of the outermost loop (`RunInv.Base.main`: no return
+address; it ends by running off its end). Its annotation is the fragment of `gen_balanced`
+PLACED behind the old code (`RunInv.main_stepVerified`: the fragment calculus is generic in the
+position, so nothing has to be shifted and nothing is needed about the old code but that its
+loop ids are unique); every step of the loop keeps "`mainfunc` is at the bottom of the stack of
+activations" (`RunInv.holds_step_ext`, from `calling_contract`); the loop can only stop at the
+end of `mainfunc` (`RunInv.main_end`), where the fragment's final state says: one value, no
+scope, no open region. -/
+theorem run_at_rest_of_invariant (fuel : Nat) (es : List Expr) (s s' : St) (v : String) (tr : List String) (d : String)
+    (alive : Bool) (hs : Served s) (hok : okLs es = true)
+    (h : runText fuel es s = (Outcome.done "ok" v tr d, s', alive)) : AtRest s' ∧ Served s' :=
+  ⟨(runText_ok fuel es s s' v tr d alive hs hok h).rest, runText_ok fuel es s s' v tr d alive hs hok h⟩
+
+open ZygoVerif.RunInv in
+theorem served_of_servedState {s : St} (h : ServedState s) : Served s := by
+  induction h with
+  | init => exact served_initSt
+  | text _ hok hrun ih => exact (run_at_rest_of_invariant _ _ _ _ _ _ _ _ ih hok hrun).2
+
+/-- `RunAtRest` restricted to the states reachable from the fresh interpreter by earlier texts of
+the grammar that returned values, and to texts of the grammar. -/
+def RunAtRestReachable : Prop :=
+  ∀ (fuel : Nat) (es : List Expr) (s s' : St) (v : String) (tr : List String) (d : String) (alive : Bool),
+    ServedState s → okLs es = true → runText fuel es s = (Outcome.done "ok" v tr d, s', alive) → AtRest s'
+
+/-- **run_at_rest_reachable** (proved): whatever texts of the grammar an interpreter has evaluated
+to values since it was created — any number of them, defining functions, closures, loops, tail
+calls, calling them at any depth, with any fuel — the next text of the grammar that returns a
+value leaves it at rest. This is NOT the full `RunAtRest`: that one quantifies over EVERY state
+with empty stacks and the pc at the end (`AtRest`), including states whose function table holds
+unbalanced code bound to a name; for those it is not provable (the table invariant `RunInv.WF`
+is exactly what is missing), and states after erroneous texts are not covered either (see
+`ServedState`). -/
+theorem run_at_rest_reachable : RunAtRestReachable := by
+  intro fuel es s s' v tr d alive hs hok h
+  exact (run_at_rest_of_invariant fuel es s s' v tr d alive (served_of_servedState hs) hok h).1
+
+/-- an idle interpreter does not grow: every state between texts is at rest -/
+theorem servedState_at_rest {s : St} (h : ServedState s) : AtRest s := (served_of_servedState h).rest
+
+/-- non-vacuity: the empty text, served by the fresh interpreter, returns a value; the state after
+it is a `ServedState` -/
+example : ∃ s', runText 2 [] initSt = (Outcome.done "ok" "nil" [] (depths initSt), s', true) ∧ ServedState s' := by
+  obtain ⟨s', h, _⟩ := eval_empty_nil initSt 0 ⟨rfl, rfl, rfl, rfl, rfl, by decide⟩
+  exact ⟨s', h, ServedState.text ServedState.init rfl h⟩
+
+theorem okLs_append : ∀ (a b : List Expr), okLs a = true → okLs b = true → okLs (a ++ b) = true
+  | [], _, _, hb => hb
+  | e :: es, b, ha, hb => by
+    simp only [okLs, Bool.and_eq_true] at ha
+    simp only [List.cons_append, okLs, Bool.and_eq_true]
+    exact ⟨ha.1, okLs_append es b ha.2 hb⟩
+
+/-- **one_at_a_time_rest_partial** (the depth half of `OneAtATime`, on the VM model): for an
+interpreter in a `ServedState`, evaluating two texts of the grammar together, or one after the
+other, leaves it at rest — and in a `ServedState` again — in all three evaluations that return
+a value. That the VALUES agree (`OneAtATime`) is not proved: the two runs allocate function ids
+in different orders (templates of the second text before / after the run-time helpers of the
+first), so it needs a simulation up to renaming of function ids. -/
+theorem one_at_a_time_rest_partial (fuel : Nat) (es₁ es₂ : List Expr) (s : St) (hs : ServedState s)
+    (h1 : okLs es₁ = true) (h2 : okLs es₂ = true)
+    {v tr d s' a v₁ tr₁ d₁ s₁ a₁ v₂ tr₂ d₂ s₂ a₂}
+    (hboth : runText fuel (es₁ ++ es₂) s = (Outcome.done "ok" v tr d, s', a))
+    (hfst : runText fuel es₁ s = (Outcome.done "ok" v₁ tr₁ d₁, s₁, a₁))
+    (hsnd : runText fuel es₂ s₁ = (Outcome.done "ok" v₂ tr₂ d₂, s₂, a₂)) :
+    AtRest s' ∧ AtRest s₁ ∧ AtRest s₂ ∧ ServedState s' ∧ ServedState s₂ :=
+  have q1 : ServedState s₁ := ServedState.text hs h1 hfst
+  have q2 : ServedState s₂ := ServedState.text q1 h2 hsnd
+  have q : ServedState s' := ServedState.text hs (okLs_append es₁ es₂ h1 h2) hboth
+  ⟨servedState_at_rest q, servedState_at_rest q1, servedState_at_rest q2, q, q2⟩
+
+/-- **run_at_rest_partial**: `RunAtRest` for the empty text and EVERY state at rest
+(`eval_empty_nil`). For non-empty texts see `run_at_rest_reachable` / `run_at_rest_of_invariant`:
+proved for every state that satisfies the run-time invariant, in particular every state reachable
+from the fresh interpreter by texts of the grammar that returned values. The full `RunAtRest`
+(every state with empty stacks, whatever its function table holds) is not provable without the
+table invariant and stays a `def`. -/
 theorem run_at_rest_partial (s : St) (fuel : Nat) (h : AtRest s) :
     ∀ s' v tr d alive, runText (fuel + 2) [] s = (Outcome.done "ok" v tr d, s', alive) → AtRest s' := by
   intro s' v tr d alive hr
